@@ -1,6 +1,9 @@
 package main
 
 import (
+	"reflect"
+	"strconv"
+	"strings"
 	"verifharness/docs"
 	"verifharness/gen"
 	"verifharness/mon"
@@ -33,7 +36,7 @@ func emptiness(v interface{}) string {
 
 func c07(r *mon.Run) {
 	r.Rule = "exhaustive: every ordered pair of a 24-value universe (all JSON types, every emptiness class, one level of nesting) x the 8 binary operators, operands supplied as literals, as document fields and mixed; ! and filter conditions [?@] / [?a] over the universe; short-circuit probes (x || E, x && E for every x and every error kind E: the right operand must be evaluated exactly when needed), also as filter conditions evaluated per element; " +
-		"every operator tree of depth <= 2 over 6 representative operands (depth 3 sampled in thorough); deep equality over every ordered pair of a 56-value universe of small nested arrays and objects (different key sets of equal size, null members, element order, nesting), as ==, !=, inside a filter condition and through contains(); seeded random nestings inside filter conditions. Oracle: ref truth table / deep equality / numeric ordering. Non-trivial = distinct (expression, document); the (operator, left type, right type, emptiness) matrix is reported."
+		"every operator tree of depth <= 2 over 6 representative operands (depth 3 sampled in thorough); deep equality over every ordered pair of a 56-value universe of small nested arrays and objects (different key sets of equal size, null members, element order, nesting), as ==, !=, inside a filter condition and through contains(); !, ||, && and filter conditions over the same universe given as Go pointers (*T, **T, ***T, nil; in a map, as list elements, as the document): a pointer is as true-like as its pointee; seeded random nestings inside filter conditions. Oracle: ref truth table / deep equality / numeric ordering. Non-trivial = distinct (expression, document); the (operator, left type, right type, emptiness) matrix is reported."
 	r.Exhaustive = true
 	r.Floor = 3000
 	r.Assumptions = []string{"truth definition, deep equality and ordering rules as stated in C07 (ref/value.go: Falsy, DeepEq)"}
@@ -99,6 +102,73 @@ func c07(r *mon.Run) {
 			cx := &caseCtx{r, t, "not-and-filters", i}
 			cx.runBoth(tree, expr, doc)
 			t.Nontrivial("u:" + expr + ref.Canon(doc))
+		}}
+	// Go pointers as operands (SDK-style optional fields, pointers stored in generic maps): a pointer is as
+	// true-like as what it points to, a nil pointer is null. The model runs on the plain value, the library
+	// on the pointer form; results are compared after dereferencing (docs.ToGeneric).
+	ptrTo := func(v interface{}, levels int) interface{} {
+		if v == nil {
+			return (*bool)(nil)
+		}
+		rv := reflect.ValueOf(v)
+		for k := 0; k < levels; k++ {
+			p := reflect.New(rv.Type())
+			p.Elem().Set(rv)
+			rv = p
+		}
+		return rv.Interface()
+	}
+	const pforms = 8
+	ptrs := mon.Workload{Name: "pointer-operands", N: n * pforms * 3,
+		Do: func(i int, t *mon.Tally) {
+			x := i / (pforms * 3)
+			form := i / 3 % pforms
+			levels := 1 + i%3 // *T, **T, ***T
+			var tree *gen.Expr
+			a := gen.Field("a")
+			var gdoc, pdoc interface{}
+			gdoc = map[string]interface{}{"a": us[x], "b": "set"}
+			pdoc = map[string]interface{}{"a": ptrTo(us[x], levels), "b": "set"}
+			switch form {
+			case 0:
+				tree = gen.Not(a)
+			case 1:
+				tree = gen.Or(a, gen.Raw("default"))
+			case 2:
+				tree = gen.And(a, gen.Raw("then"))
+			case 3:
+				tree = gen.Not(gen.Not(a))
+			case 4, 5, 6: // filters over the whole universe as pointers
+				ga, pa := make([]interface{}, n), make([]interface{}, n)
+				for k := range ga {
+					v := us[(k+x)%n]
+					ga[k] = map[string]interface{}{"a": v, "i": float64(k)}
+					pa[k] = map[string]interface{}{"a": ptrTo(v, levels), "i": float64(k)}
+				}
+				gdoc, pdoc = ga, pa
+				cond := []*gen.Expr{a, gen.Not(a), gen.Or(gen.And(a, gen.Cmp(">", gen.Field("i"), gen.LitJSON("3"))), gen.Not(a))}[form-4]
+				tree = gen.Chain(nil, gen.StFilter(cond), gen.StField("i"))
+			default: // the document itself is a pointer
+				gdoc, pdoc = us[x], ptrTo(us[x], levels)
+				// (no multi-select here: what a multi-select makes of a nil *pointer document* is not C07's business)
+				tree = gen.Or(gen.And(gen.Not(gen.Current()), gen.Raw("F")), gen.And(gen.Current(), gen.Raw("T")))
+			}
+			expr := gen.Spell(tree)
+			res := ref.RefSet(tree, gdoc, gen.Quirks{})
+			t.Eval()
+			for k, o := range []mon.Observed{apiSearch(expr, pdoc), apiCompiledSearch(expr, pdoc)} {
+				if !o.Panicked && o.Err == nil {
+					o.V = docs.ToGeneric(o.V, false)
+				}
+				if !matches(res, o) {
+					r.Violate(&mon.Violation{Workload: "pointer-operands", Index: i, API: []string{"Search", "Compile+Search"}[k], Expr: expr, Doc: gdoc,
+						DocDesc:  "the same document with every 'a' (or the document itself) given as a " + strings.Repeat("*", levels) + "T pointer: " + clipStr(mon.Snapshot(pdoc), 500),
+						Expected: expectedString(res) + " (a pointer is as true-like as its pointee; a nil pointer is null)", Observed: o.String(), Class: "pointer-operands: truthiness of a pointer"})
+					return
+				}
+			}
+			t.Nontrivial("p:" + expr + ref.Canon(gdoc) + strconv.Itoa(levels))
+			t.Count("pointer operands agreeing with the truth table")
 		}}
 	// short circuit
 	bads := []*gen.Expr{
@@ -280,7 +350,7 @@ func c07(r *mon.Run) {
 			cx.runOne(tree, gen.Spell(tree), doc)
 			t.NontrivialDistinct(1)
 		}}
-	ws := []mon.Workload{pairs, unary, sc, scf, trees, rnd, eqw, numw}
+	ws := []mon.Workload{pairs, unary, ptrs, sc, scf, trees, rnd, eqw, numw}
 	if r.Tier == "thorough" {
 		d2m := gen.Materialize(gen.Union(gen.Map(d1, un...), gen.Product(reps, d1, bin...)))
 		d3 := gen.Product(d2m, d1, bin...)
